@@ -110,6 +110,23 @@ def events_for(case):
     return evs
 
 
+def conn_case(case, k):
+    """connection k of a case with "conns": [{"rot": r, "tail": fragment, "consume": n, "notifs_unread": bool}, ...] - the child of
+    connection k writes the case's lines rotated by r (so every connection has its own sequence), then possibly an
+    unterminated fragment (text, or hex + "#hex") before it dies"""
+    sp = case["conns"][k]
+    r = sp.get("rot", 0) % max(1, len(case["items"]))
+    return dict(case, items=case["items"][r:] + case["items"][:r])
+
+
+def conn_events(case, k):
+    evs = events_for(conn_case(case, k))
+    t = case["conns"][k].get("tail")
+    if t is not None:
+        evs = evs + [{"c": (bytes.fromhex(t[:-4]) if t.endswith("#hex") else t.encode("utf-8")).hex()}]
+    return evs
+
+
 def scenario_cases(rng, budget):
     """usage scenarios around the same reader (HARDEN.md classes 5-8): buffer limits and back-pressure,
     per-request streams of the legacy API, closed receivers, half-closed connection, the three public
@@ -185,6 +202,30 @@ def scenario_cases(rng, budget):
     out.append({"items": tm, "cuts": [], "opts": {"scenario": "type-matrix"}})
     out.append({"items": tm, "cuts": [len(G.stream_bytes({"items": tm})) // 3], "opts": {"scenario": "type-matrix", "pending": [1, "1", "7", 0, "", "True", "None", "1.5"],
                                                                                      "pending_closed": ["False", "[]"]}})
+    # lines of the SAME SHAPE (same member names) whose members hold values of different JSON types, object-valued first
+    # (and last, and in reverse): a reader must not learn from the first message of a shape what the later ones look like -
+    # in one stream, and across connections of one object (= within one process)
+    def L(d):
+        return {"text": _msg(d), "term": nl}
+
+    twins = []
+    for res in ({"a": 1}, [1, {"b": 2}], "text", 7, 1.5, True, None, {}, []):
+        twins.append(L({"jsonrpc": "2.0", "id": len(twins) + 1, "result": res}))
+    for par in ({"x": 1}, [1, 2], {}, []):
+        twins.append(L({"jsonrpc": "2.0", "id": len(twins) + 1, "method": "tools/call", "params": par}))
+        twins.append(L({"jsonrpc": "2.0", "method": "notifications/progress", "params": par}))
+    for idv in ("abc", 5, "5", 0, ""):
+        twins.append(L({"jsonrpc": "2.0", "id": idv, "result": {"of": "id"}}))
+        twins.append(L({"jsonrpc": "2.0", "id": idv, "method": "ping"}))
+        twins.append(L({"jsonrpc": "2.0", "id": idv, "error": {"code": -32000, "message": "m", "data": idv}}))
+    for dat in ({"d": 1}, [1], "s", 3, None):
+        twins.append(L({"jsonrpc": "2.0", "id": 9, "error": {"code": -1, "message": "m", "data": dat}}))
+    for order in (twins, twins[::-1], twins + twins[:3]):
+        out.append({"items": order, "cuts": [41], "opts": {"scenario": "same-shape-other-types"}})
+        out.append({"items": order, "cuts": [], "opts": {"scenario": "same-shape-other-types", "fresh_process": True}})
+    for api in ("client", "function"):
+        out.append({"items": twins, "cuts": [], "conns": [{"rot": 0}, {"rot": 1}, {"rot": 9}, {"rot": len(twins) - 1}],
+                    "opts": {"scenario": "same-shape-other-types", "api": api, "fresh_process": api == "client"}})
     # the SAME bad line 2, 3, 4 times in a row, then a good one; a bad line after a good one and before one
     for bad in ("not json", '{"jsonrpc":"2.0","id":1}', "[" * 100_000, "", "\x00"):
         for k in (2, 3, 4):
@@ -223,7 +264,24 @@ def scenario_cases(rng, budget):
     # a SECOND session on the same client object after a first one whose child died in the middle of a line / of a character
     for api in ("client", "transport", "function"):
         for tail in ('{"jsonrpc":"2.0","me', '{"jsonrpc":"2.0","method":"\u00e9'.encode("utf-8")[:-1].hex() + "#hex", "\u20ac".encode("utf-8")[:2].hex() + "#hex", "xx"):
-            out.append({"items": base + [notif(1)], "cuts": [n0 // 2], "first_tail": tail, "opts": {"scenario": "second-session-after-broken-first", "api": api}})
+            out.append({"items": base + [notif(1)], "cuts": [n0 // 2], "conns": [{"tail": tail}, {}],
+                        "opts": {"scenario": "second-session-after-broken-first", "api": api}})
+    # a second and a third session after a first whose CONSUMER left early: k of the lines read, the rest (and the
+    # notifications) never looked at; every connection's child writes its own sequence
+    mix = [resp(1), notif(1), resp(2), notif(2), notif(3), resp("r-3"), notif(4), resp(5)]
+    for api in ("client", "transport", "function"):
+        for k in (0, 1, 3, len(mix) - 1):
+            for unread in (True, False):
+                out.append({"items": mix, "cuts": [33], "conns": [{"consume": k, "notifs_unread": unread}, {"rot": 3}, {"rot": 5}],
+                            "opts": {"scenario": "sessions-after-unread-first", "api": api}})
+        out.append({"items": mix, "cuts": [], "conns": [{"consume": 2}, {"rot": 2, "consume": 0, "notifs_unread": True}, {"rot": 4}, {"rot": 1}],
+                    "opts": {"scenario": "sessions-after-unread-first", "api": api}})
+        out.append({"items": mix, "cuts": [], "conns": [{"consume": 1, "notifs_unread": True, "tail": '{"jsonrpc":"2.0","id":9'}, {"rot": 6}],
+                    "opts": {"scenario": "sessions-after-unread-first", "api": api}})
+        # ... and whose connection ended with the child already gone / with an exception in the body
+        for end in ("child-exited", "exception"):
+            out.append({"items": mix, "cuts": [], "conns": [{"consume": 2, "notifs_unread": True, "end": end}, {"rot": 3, "end": end}, {"rot": 6}],
+                        "opts": {"scenario": "sessions-after-unread-first", "api": api}})
     # nothing but blank / junk lines; the same line many times
     out.append({"items": [{"text": t, "term": rng.choice([nl, "\r\n"])} for t in G.JUNK], "cuts": [], "opts": {"scenario": "junk-only"}})
     out.append({"items": [resp(1, 1)] * 5 + [notif(1)] * 5, "cuts": [10], "opts": {"scenario": "duplicates"}})
@@ -325,6 +383,12 @@ class Chunking(Suite):
             if len(grp) == 3 and all(plain(c) for c in grp):
                 for c in grp:
                     c["with"] = [{k: v for k, v in o.items() if k != "with"} for o in grp if o is not c]
+        # which line is a well-formed message is asked of the library's parser in a process that has parsed nothing else
+        from .. import stdio_h
+        dep = stdio_h.prejudge([it["text"] for c in out for it in c["items"]] + [c["tail"] for c in out if c.get("tail")])
+        if dep:
+            ctx.notes.append(f"the library's parser gives history-dependent answers on {len(dep)} line(s), e.g. {dep[0][:120]!r}; "
+                             "each was judged alone in a fresh process")
         return out
 
     # ------------------------------------------------------------------ implementation
@@ -333,14 +397,24 @@ class Chunking(Suite):
 
         def harness_case(c):
             h = dict({"events": events_for(c), "opts": c.get("opts", {})}, **{k: c[k] for k in ("debug", "server") if k in c})
-            if c.get("first_tail") is not None:  # session 1: the same lines, then an unterminated fragment and EOF; session 2: the lines
-                h["session_events"] = [h["events"] + [{"c": self._first_tail(c).hex()}], h["events"]]
+            if c.get("conns"):  # consecutive connections on ONE object, each with its own child, lines and consumer
+                h["session_events"] = [conn_events(c, k) for k in range(len(c["conns"]))]
+                h["session_opts"] = [{k2: v for k2, v in (("consume_max", sp.get("consume")), ("notifs_unread", sp.get("notifs_unread")), ("end", sp.get("end"))) if v is not None}
+                                     for sp in c["conns"]]
             if c.get("with"):
                 h["with"] = [harness_case(w) for w in c["with"]]
             return h
 
         evs = [harness_case(c) for c in cases]
-        obs = stdio_h.run_reader_cases(evs)
+        # cases marked "fresh_process" run each as the FIRST use of the library in a process of their own (process-wide state of the
+        # parser, of the serialiser, of anything else starts from nothing); the rest share this process, in order
+        fresh = [i for i, c in enumerate(cases) if c.get("opts", {}).get("fresh_process")]
+        shared = [i for i in range(len(cases)) if i not in set(fresh)]
+        obs = [None] * len(cases)
+        for i, o in zip(shared, stdio_h.run_reader_cases([evs[i] for i in shared]) if shared else []):
+            obs[i] = o
+        for i in fresh:
+            obs[i] = stdio_h.run_reader_cases_fresh([evs[i]])[0]
         out = []
         for o in obs:
             o = {k: o[k] for k in o if k not in ("writes", "info")} | ({"writes": len(o["writes"])} if "writes" in o else {})
@@ -350,19 +424,17 @@ class Chunking(Suite):
         return out
 
     # ------------------------------------------------------------------ model
-    @staticmethod
-    def _first_tail(case):
-        t = case["first_tail"]
-        return bytes.fromhex(t[:-4]) if t.endswith("#hex") else t.encode("utf-8")
-
     def model_line(self, case):
         table, _ = G.line_table([it["text"] for it in case["items"]] + ([case["tail"]] if case.get("tail") else []))
         opts = case.get("opts", {})
         regs = [{"reg": str(k)} for k in list(opts.get("pending", [])) + list(opts.get("pending_closed", []))]
         evs = regs + [{"c": bytes.fromhex(e["c"]).hex() if "c" in e else e["s"].encode("utf-8").hex()}
                       for e in events_for(case) if "sleep" not in e]
-        if case.get("first_tail") is not None:  # two connections on one object (Model.StdioIn.runSessions)
-            return {"m": "stdio_reader", "sessions": [evs + [{"c": self._first_tail(case).hex()}], evs], "table": table, "cap": NOTIF_CAP}
+        if case.get("conns"):  # consecutive connections on one object (Model.StdioIn.runSessions)
+            def mev(k):
+                return regs + [{"c": bytes.fromhex(e["c"]).hex() if "c" in e else e["s"].encode("utf-8").hex()}
+                               for e in conn_events(case, k) if "sleep" not in e]
+            return {"m": "stdio_reader", "sessions": [mev(k) for k in range(len(case["conns"]))], "table": table, "cap": NOTIF_CAP}
         return {"m": "stdio_reader", "events": evs, "table": table, "cap": NOTIF_CAP}
 
     def model_obs(self, out, case):
@@ -388,8 +460,9 @@ class Chunking(Suite):
         if "harness_error" in o or "driver_error" in m:
             return "error"
         obs = o.get("earlier", []) + [o]
-        for ob, mm in zip(obs, (m["earlier"] + [m]) if "earlier" in m else [m] * len(obs)):
-            if ob["delivered"] is not None and core.canon(ob["delivered"]) != core.canon(mm["delivered"]):
+        for k, (ob, mm) in enumerate(zip(obs, (m["earlier"] + [m]) if "earlier" in m else [m] * len(obs))):
+            lim = case["conns"][k].get("consume") if case.get("conns") else None  # a consumer that read only the first `lim` lines
+            if ob["delivered"] is not None and core.canon(ob["delivered"]) != core.canon(mm["delivered"] if lim is None else mm["delivered"][:lim]):
                 return "delivered"
             if not G.notif_ok(ob["notified"], mm["notified"]):  # None: no notification stream handed out / receiver closed
                 return "notified"
@@ -420,15 +493,27 @@ class Chunking(Suite):
         return {"delivered": delivered, "notified": notified}
 
     def oracle(self, case, o):
+        if "harness_error" in o:
+            return ("client-raised", f"the stdio client raised {o['harness_error']} while reading", self.expected(case))
+        if case.get("conns"):  # connection n delivers the well-formed lines child n wrote - whatever happened on the object before
+            obs = o.get("earlier", []) + [o]
+            for k, ob in enumerate(obs):
+                r = self._oracle_one(conn_case(case, k), dict(ob, eof=True), case["conns"][k].get("consume"))
+                if r is not None:
+                    return (r[0], r[1] + f" [connection {k + 1} of {len(obs)} on the same object]", r[2])
+            return None
+        for e in o.get("earlier", []):  # an earlier session on the same client object
+            r = self._oracle_one(case, dict(e, eof=True))
+            if r is not None:
+                return r
+        return self._oracle_one(case, o)
+
+    def _oracle_one(self, case, o, limit=None):
         from .. import core
 
         want = self.expected(case)
-        if "harness_error" in o:
-            return ("client-raised", f"the stdio client raised {o['harness_error']} while reading", want)
-        for e in o.get("earlier", []):  # an earlier session on the same client object
-            r = self.oracle(case, dict(e, eof=True))
-            if r is not None:
-                return r
+        if limit is not None:  # the consumer read `limit` lines and left
+            want = dict(want, delivered=want["delivered"][:limit])
         got = o["delivered"]
         if got is not None and core.canon(got) != core.canon(want["delivered"]):
             inside_char, _ = G.cut_classes(case)
